@@ -165,6 +165,16 @@ def run(ctx):
             sc = c10.script(rng, ["ccslow"], roles, 400)
             sc["strict"], sc["settle"] = True, 2
             racing.append(sc)
+    # a Read that waits at the hand-off to a loop that is not running (no RTCP writer bound yet) is released by Close
+    for kinds in (["twccsend"], ["rfc8888"], ["rfc8888", "twccsend", "nackgen", "rrecv"]):
+        for _ in range(2 if ctx.quick else 10):
+            racing.append({
+                "members": [{"k": k, "o": {"ivl": 1, "size": 64}} for k in kinds], "watch": 4000, "settle": 10,
+                "steps": [{"a": "bindr"}, {"a": "bindm", "s": 2, "nack": True, "twcc": 7, "pli": False},
+                          {"a": "par", "par": [
+                              {"a": "rrtp", "s": 2, "w": 100, "id": 1, "len": 30, "shape": 0, "tw": 100, "fail": False, "rep": rng.choice([1, 3])},
+                              {"a": "seq", "rep": 1, "seq": [{"a": "wait", "ms": rng.choice([2, 5, 20])}, {"a": "close"}]}]},
+                          {"a": "wait", "ms": 3}]})
     for i in range(0, len(racing), 60):
         vlib.run_batch(ctx, tag="G-close-racing-%d" % (i // 60), scripts=racing[i:i + 60], pkg_rel="", pkgname="interceptor_test",
                        files=["zz_verif_univ_test.go", "common:zz_verif_pkt_test.go.tpl"], test="TestVerifUnivExec",
